@@ -27,6 +27,8 @@ pub fn l2_case(seed: u64, l: &mut Local) {
         // the browse needs is refreshed at all four marks all the same)
         hostnames: seed % 4 == 1,
         max_horizon: 400_000,
+        // (and up to four cache-only browses of other types on the same daemon)
+        cache_only_others: (seed / 7 % 5) as u8,
     };
     let made = browser::scenario(seed, &opts);
     l.evaluations += 1;
@@ -36,7 +38,7 @@ pub fn l2_case(seed: u64, l: &mut Local) {
         return;
     }
     l.count("daemon_iterations", made.world.total_iterations);
-    l.distinct.insert(util::fnv_str(&format!("L2|{}|{}", made.desc.split(" events:").next().unwrap_or(""), opts.hostnames)));
+    l.distinct.insert(util::fnv_str(&format!("L2|{}|{}|{}", made.desc.split(" events:").next().unwrap_or(""), opts.hostnames, opts.cache_only_others)));
     let sl = c03::slack(made.world.stepping);
     let hist = Hist::build(trace, 0, &[]);
     let txs = scen::tx_msgs(trace, 0);
